@@ -90,6 +90,9 @@ def tree_case(agg, rng, quick):
     try:
         t = Tree(rng, tmp)
         jkeys = rng.sample(["lib1", "lib2", "lib3"], rng.randint(0, 3))
+        if rng.random() < 0.35:
+            # the same directory may be named more than once; the right-most occurrence is what counts
+            jkeys = [rng.choice(["lib1", "lib2", "lib3"]) for _ in range(rng.randint(2, 5))]
         jdirs = [t.dirs[k] for k in jkeys]
         main = t.dirs["main"]
         fields = []          # (field name, jsonnet expr, expected python value or ("error",))
@@ -315,9 +318,12 @@ def precedence_shard(args):
     agg = Agg()
     os.makedirs(common.SCRATCH, exist_ok=True)
     import itertools
+    seqs = [()]
+    for nj in (1, 2, 3, 4):
+        seqs += list(itertools.product(["lib1", "lib2", "lib3"], repeat=nj))
     for mask in masks:
-        for perm in itertools.permutations(["lib1", "lib2", "lib3"]):
-            for nj in (0, 1, 2, 3):
+        for perm in seqs:
+            for nj in (len(perm),):
                 tmp = tempfile.mkdtemp(dir=common.SCRATCH)
                 try:
                     t = Tree(random.Random(0), tmp)
@@ -347,6 +353,90 @@ def precedence_shard(args):
     return agg
 
 
+def importers_shard(args):
+    """Two importers in different directories use the same relative string: each resolution is a function of
+    (that importer's directory, the -J list) only, whatever the other one resolved before."""
+    seed, masks = args
+    agg = Agg()
+    os.makedirs(common.SCRATCH, exist_ok=True)
+    import itertools
+    jseqs = [()] + [(a,) for a in ("lib1", "lib2")] + list(itertools.product(["lib1", "lib2"], repeat=2))
+    kinds = ["import", "importstr", "importbin"]
+    for mask in masks:
+        placed = [k for i, k in enumerate(["main", "sub", "lib1", "lib2"]) if mask >> i & 1]
+        for jk in jseqs:
+            for k1, k2 in itertools.product(kinds, repeat=2):
+                for first in ("main", "sub"):
+                    tmp = tempfile.mkdtemp(dir=common.SCRATCH)
+                    try:
+                        t = Tree(random.Random(0), tmp)
+                        for k in placed:
+                            with open(os.path.join(t.dirs[k], "x.libsonnet"), "w") as f:
+                                f.write(jstr(k))
+                        # importer files sit next to (or away from) a sibling x.libsonnet
+                        with open(os.path.join(t.dirs["main"], "imp_main.libsonnet"), "w") as f:
+                            f.write('%s "x.libsonnet"' % k1)
+                        with open(os.path.join(t.dirs["sub"], "imp_sub.libsonnet"), "w") as f:
+                            f.write('%s "x.libsonnet"' % k2)
+                        parts = {"main": 'import "imp_main.libsonnet"', "sub": 'import "sub/imp_sub.libsonnet"'}
+                        second = "sub" if first == "main" else "main"
+                        # each importer in its own run (must fail alone if unresolvable) and both in one run, in order
+                        jdirs = [t.dirs[k] for k in jk]
+                        exp = {}
+                        for who in ("main", "sub"):
+                            full = t.resolve("x.libsonnet", t.dirs[who], jdirs)
+                            exp[who] = None if full is None else os.path.basename(os.path.dirname(full)).replace("lib 3", "lib3")
+                        argv = []
+                        for d in jdirs:
+                            argv += ["-J", d]
+
+                        def render(who, val):
+                            kind = k1 if who == "main" else k2
+                            if kind == "import":
+                                return val
+                            text = json.dumps(val)
+                            return text if kind == "importstr" else [float(b) for b in text.encode()]
+                        root = os.path.join(t.dirs["main"], "root.jsonnet")
+                        desc = {"placed": placed, "jpath": list(jk), "kinds": [k1, k2], "first": first}
+                        if exp[first] is not None and exp[second] is not None:
+                            with open(root, "w") as f:
+                                f.write("local a = %s, b = %s; if a == a then [a, b]" % (parts[first], parts[second]))
+                            rc, out, err = run_cli(argv + [root])
+                            agg.evaluations += 1
+                            want = [render(first, exp[first]), render(second, exp[second])]
+                            try:
+                                got = json.loads(out.decode("utf-8")) if rc == 0 else None
+                            except ValueError:
+                                got = None
+                            if got != want:
+                                agg.violation({"kind": "resolution_depends_on_earlier_import", "first": first},
+                                              dict(desc, expected=want, got=got, exit=rc, stderr=err.decode("utf-8", "replace")[-300:]), None)
+                            else:
+                                agg.count("two_importers_ok")
+                        else:
+                            for who in (first, second):
+                                with open(root, "w") as f:
+                                    f.write(parts[who])
+                                rc, out, err = run_cli(argv + [root])
+                                agg.evaluations += 1
+                                if exp[who] is None:
+                                    if rc != 1 or out != b"":
+                                        agg.violation({"kind": "missing_import_not_an_error", "who": who}, dict(desc, exit=rc), None)
+                                    else:
+                                        agg.count("unresolvable_fails")
+                                else:
+                                    try:
+                                        got = json.loads(out.decode("utf-8")) if rc == 0 else None
+                                    except ValueError:
+                                        got = None
+                                    if got != render(who, exp[who]):
+                                        agg.violation({"kind": "search_order", "who": who}, dict(desc, expected=exp[who], got=got), None)
+                        agg.nontrivial.add(common.h64(str(mask), repr(jk), k1, k2, first))
+                    finally:
+                        shutil.rmtree(tmp, ignore_errors=True)
+    return agg
+
+
 def run(tier, seed):
     t0 = time.time()
     quick = tier != "thorough"
@@ -357,7 +447,9 @@ def run(tier, seed):
     masks = list(range(16))
     for a in common.pmap(precedence_shard, [(seed, masks[i::16]) for i in range(16)]):
         total.merge(a)
-    rule = ("generated directory trees (importer dir, subdir, up to three -J dirs incl. one with a space, files "
+    for a in common.pmap(importers_shard, [(seed, masks[i::16]) for i in range(16)]):
+        total.merge(a)
+    rule = ("generated directory trees (importer dir, subdir, up to five -J flags over three directories (repeats allowed) incl. one with a space, files "
             "duplicated across them, ./ ../ sub/../ spellings, absolute paths, symlinks to files and directories, "
             "nested imports relative to the imported file, an unforced import cycle, binary/invalid-UTF-8 content) run "
             "through the real CLI: each import must deliver the file the search order selects (importer directory "
@@ -365,6 +457,8 @@ def run(tier, seed):
             "(trace per file), std.thisFile is the first load path, importstr = lossy text, importbin = exact bytes; "
             "faults (missing, directory, dangling symlink, symlink loop, unreadable via setuid child): exit 1, empty "
             "stdout, error located at the import expression; exhaustive: one name in every subset of {importer dir, "
-            "J1, J2, J3} x every order and count of -J flags. distinct_nontrivial = distinct trees / placements decided.")
+            "J1, J2, J3} x every sequence of 0-4 -J flags over three directories (repeats included); two importers in "
+            "different directories using the same relative string with import/importstr/importbin, in both "
+            "evaluation orders, x every placement x every -J sequence up to 2. distinct_nontrivial = distinct trees / placements decided.")
     return common.finish(PROP, tier, seed, total, rule, t0,
                          assumptions=["the Python model of the search (os.path.exists per candidate) is what the property states"])
